@@ -7,7 +7,7 @@ import (
 
 // C03 — class bodies: the real __build_class__ builtin runs the class body.
 
-//verif:property C03
+//verif:property C03 C11
 //verif:runinit github.com/go-python/gpython/py.init@type.go:1 github.com/go-python/gpython/vm.init#1 github.com/go-python/gpython/vm.init#2
 //verif:expect ran
 func VerifC03ClassScopes() {
